@@ -1,5 +1,4 @@
-// @gen gen_transport_statics.py transport_statics.inc
-// @static_init transport.cpp NameDouble.cxx Solution.cxx Utils.cxx
+// @static_init NameDouble.cxx Solution.cxx Utils.cxx
 // @id C11.mcd_transfer_conserves
 // @engine B
 // @entry vfh_C11_mcd_transfer
@@ -11,13 +10,23 @@
 // @oracle only dissolved mass is moved: for every element (all valence states of an element summed: N = N + N(5) + N(-3) ..., but Na is not N and Ca is not C), the amount in a cell changes by exactly formula coefficient x (flux in - flux out) over its active interfaces, total H and total O likewise, elements that are in no moving species are untouched, boundary cells are untouched, and with closed boundaries the column inventory of every element is constant (relative 1e-9)
 // @stubs Phreeqc::find_J (environment: fills ct[icell].J_ij with the symbolic fluxes), get_elts_in_species (formula table for the four species), error_msg, warning_msg, sformatf
 // @outside find_J itself (Vinograd-McBain fluxes, 900 lines of floating point), stagnant zones, electro-migration (dV_dcell), the implicit solver
+// @id C06.transport_state_per_instance
+// @engine B
+// @entry vfh_C06_mcd_state
+// @tier Q
+// @opts budget_s=300 confirm=stress:harness/C06/stress_transport.cpp
+// @reach mcd.done
+// @funcs Phreeqc::multi_D; Phreeqc::fill_m_s
+// @bounds the same multicomponent-diffusion step as C11.mcd_transfer_conserves, executed with every store monitored: a store to a process-wide mutable object of the library (a namespace-scope or static variable that is not a harness object, not a constant, not a vtable) while no mutex is held is reported (Eraser-style lock discipline: holds or fails for any number of threads)
+// @oracle engine state is per instance (C06): the transport step writes only to the instance it runs on, to memory that instance owns, or to shared objects under a lock. A reported store is confirmed by running 6 threads x 6 multicomponent-diffusion TRANSPORT runs, one instance per thread, against the library built from the same IR, and comparing every result with the single-threaded reference (harness/C06/stress_transport.cpp)
+// @stubs as C11.mcd_transfer_conserves
+// @outside stores through pointers held in shared variables (the pointed-to heap blocks), reads of shared state, the other transport routines
 #include "Phreeqc.h"
 #include "Solution.h"
 #include "cxxMix.h"
 #include "vf.h"
 #include <new>
 #include <string.h>
-#include <transport_statics.inc>   /* generated from the current transport.cpp (@gen) */
 
 static class element g_el[6];
 static const char *EL[6] = {"N", "O", "Na", "H", "C", "Cl"};
@@ -25,6 +34,7 @@ enum { E_N, E_O, E_NA, E_H, E_C, E_CL };
 static const char *SP[4] = {"NO3-", "Na+", "HCO3-", "Cl-"};
 static const double NU[4][6] = {{1, 3, 0, 0, 0, 0}, {0, 0, 1, 0, 0, 0}, {0, 3, 0, 1, 1, 0}, {0, 0, 0, 0, 0, 1}};
 static double g_flux[4];
+static Phreeqc *g_p;
 static int g_errs = 0, g_interfaces = 0, g_seen[4];
 
 void Phreeqc::error_msg(const char *err_str, bool stop) { g_errs++; vf_event_s("error_msg", err_str); }
@@ -53,7 +63,7 @@ LDBLE Phreeqc::find_J(int icell, int jcell, LDBLE mixf, LDBLE DDt, int stagnant)
 	class J_ij *J = (class J_ij *) PHRQ_malloc(4 * sizeof(class J_ij));
 	if (J == NULL) vf_fail("malloc");
 	for (int j = 0; j < 4; j++) { J[j].name = SP[j]; J[j].tot1 = g_flux[j]; J[j].tot2 = g_flux[j]; J[j].tot_stag = 0; J[j].charge = 0; }
-	ct[icell].J_ij = J; ct[icell].J_ij_count_spec = 4;
+	g_p->ct[icell].J_ij = J; g_p->ct[icell].J_ij_count_spec = 4;
 	return 0;          /* no interlayer diffusion */
 }
 
@@ -69,7 +79,11 @@ static double elsum(cxxSolution &s, const char *el)
 	return t;
 }
 
-extern "C" void vfh_C11_mcd_transfer(void)
+static int g_watch = 0;
+static void mcd_step(void);
+extern "C" void vfh_C11_mcd_transfer(void) { g_watch = 0; mcd_step(); }
+extern "C" void vfh_C06_mcd_state(void) { g_watch = 1; mcd_step(); }
+static void mcd_step(void)
 {
 	Phreeqc *p = (Phreeqc *) vf_raw(sizeof(Phreeqc));
 	new (&p->Rxn_solution_map) std::map<int, cxxSolution>();
@@ -84,10 +98,12 @@ extern "C" void vfh_C11_mcd_transfer(void)
 	for (int j = 0; j < 4; j++) g_flux[j] = 0;
 	g_flux[0] = vf_double("flux_NO3", 0, 0.2); g_flux[1] = vf_double("flux_Na", 0, 0.2);
 	g_flux[2] = vf_double("flux_HCO3", 0, 0.2); g_flux[3] = vf_double("flux_Cl", 0, 0.2);
-	ct = (struct CT *) vf_raw(4 * sizeof(struct CT));
-	count_moles_added = 8;
-	moles_added = (struct MOLES_ADDED *) vf_raw(8 * sizeof(struct MOLES_ADDED));
-	dV_dcell = 0; find_current = 0;
+	g_p = p;
+	new (&p->cell_J_ij) std::map<int, std::map<std::string, J_ij_save> >();
+	p->ct = (struct CT *) vf_raw(4 * sizeof(struct CT));
+	p->count_moles_added = 8;
+	p->moles_added = (struct MOLES_ADDED *) vf_raw(8 * sizeof(struct MOLES_ADDED));
+	p->dV_dcell = 0;
 	static const char *KEYS[5] = {"Cl", "N(5)", "Na", "C(4)", "Ca"};
 	static const char *VN[4][5] = {{"b0_Cl", "b0_N5", "b0_Na", "b0_C4", "b0_Ca"}, {"c1_Cl", "c1_N5", "c1_Na", "c1_C4", "c1_Ca"},
 		{"c2_Cl", "c2_N5", "c2_Na", "c2_C4", "c2_Ca"}, {"b3_Cl", "b3_N5", "b3_Na", "b3_C4", "b3_Ca"}};
@@ -107,7 +123,9 @@ extern "C" void vfh_C11_mcd_transfer(void)
 		for (int e = 0; e < 5; e++) before[c][e] = elsum(p->Rxn_solution_map[c], ELS[e]);
 	}
 
+	if (g_watch) vf_watch_shared_state(1);
 	int rc = p->multi_D(1.0, 1, 0);
+	vf_watch_shared_state(0);
 	vf_reach("mcd.done");
 	vf_check("mcd.rc", rc == OK && g_errs == 0);
 	int act[3];       /* interface i between cells i and i+1 */
